@@ -167,9 +167,10 @@ def _enc(w, t, v):
             if HEADER_SLACK is not None:
                 # what another version of the nested type would have sent: more bytes than this version knows (also beyond its
                 # extent), or fewer (the receiver zero-extends); both are valid representations
-                n = HEADER_SLACK.choice([0, 1, 1, 2, 5, 17, -1, -1, -2, -len(body)])
+                ext = t.extent // 8
+                n = (ext - len(body) + 9) if HEADER_SLACK == "beyond" else (-len(body)) if HEADER_SLACK == "empty" else HEADER_SLACK.choice([0, 1, 2, ext - len(body) + 1, ext - len(body) + 1, ext - len(body) + 9, ext + 13, -1, -1, -2, -len(body)])
                 if n > 0:
-                    body = body + bytes(HEADER_SLACK.getrandbits(8) for _ in range(n))
+                    body = body + (bytes(HEADER_SLACK.getrandbits(8) for _ in range(n)) if not isinstance(HEADER_SLACK, str) else b"\xa5" * n)
                 elif n < 0:
                     body = body[:max(0, len(body) + n)]
             w.put(len(body), t.delimiter_header_type.bit_length)
